@@ -173,6 +173,15 @@ def proof_status(pid, regen_log="", tier="quick"):
                 if m.group(1) != "Axioms": ax.add(m.group(1))
     st["axioms"] = sorted(ax)
     st["closed"] = r.stdout.count("Closed under the global context")
+    # per theorem: the Print Assumptions blocks come in the order of the theorems of the property file
+    per = []
+    for blk in re.split(r"\n(?=Axioms:|Closed under the global context)", "\n" + r.stdout):
+        if blk.startswith("Closed under the global context"): per.append([])
+        elif blk.startswith("Axioms:"):
+            per.append(sorted({m.group(1) for m in re.finditer(r"^([A-Za-z_][A-Za-z0-9_.']*)\s*:", blk, re.M) if m.group(1) != "Axioms"}))
+    printed = re.findall(r"^\s*Print Assumptions\s+([A-Za-z0-9_']+)", src, re.M)
+    if len(per) == len(printed):
+        st["axioms_by_theorem"] = {t: (a or ["none (closed under the global context)"]) for t, a in zip(printed, per)}
     if tier == "thorough" and not os.environ.get("VERIF_NO_COQCHK"):
         try:
             # coqchk only reads the compiled files and takes minutes: it runs without the build lock (other checks keep going); should a
@@ -429,7 +438,7 @@ def run(pid, tier="quick", seed=1, replay=None):
           "modelling assumption double ~ R for theorems stated over R (not needed for theorems over the abstract order)"]
     tb += list(getattr(mod, "TRUSTED", []))
     cov = {"obligations": ps["obligations"], "discharged": ps["discharged"], "checker_cmd": ps["checker_cmd"], "trusted_base": tb,
-           "theorems": ps["theorems"], "axioms": ps["axioms"], "coqchk": ps.get("coqchk", "not run in the quick tier"),
+           "theorems": ps["theorems"], "axioms": ps["axioms"], "axioms_by_theorem": ps.get("axioms_by_theorem", "not available (the number of Print Assumptions answers differs from the number of commands)"), "coqchk": ps.get("coqchk", "not run in the quick tier"),
            "evaluations": stats["evaluations"], "distinct_nontrivial": len(nontriv), "rule": getattr(mod, "RULE", ""),
            "samples": samples or [{"note": "no sample collected"}],
            "traces_validated_against_impl": stats["within_tol"], "bit_identical": stats["bit_identical"], "mismatches": stats["mismatch"],
